@@ -41,8 +41,9 @@ var baseGroups = map[string]baseGroup{
 		runC14Split(c)
 		runC14SplitterUse(c)
 		runConvIdentity(c, "C14-CONV")
-	}, ruleIn("C14-CONV", "C14-PARSE", "C14-GUARD", "C14-ORDER", "C14-FIRST", "C14-FAST", "C14-SPLIT", "C14-STACK", "C14-USE", "C14-VERBATIM"),
-		"the rule text is split into items and parsed into key, value and message faithfully (rules C14-PARSE, C14-FAST, C14-SPLIT, C14-STACK, C14-USE; C14-GUARD/ORDER/FIRST/VERBATIM when the parser's table is not decided)", 10},
+		runC14Set(c)
+	}, ruleIn("C14-CONV", "C14-PARSE", "C14-GUARD", "C14-ORDER", "C14-FIRST", "C14-FAST", "C14-SPLIT", "C14-STACK", "C14-USE", "C14-VERBATIM", "C14-SET", "C14-DELIM"),
+		"the rule text reaches the rule functions as the caller wrote it: RM.Set stores the joined rules unchanged and joins them with the splitter's separator (rules C14-SET, C14-DELIM — a setter that skips, trims or re-joins rules drops or garbles a rule before it is judged), the text is split into items and parsed into key, value and message faithfully (rules C14-PARSE, C14-FAST, C14-SPLIT, C14-STACK, C14-USE; C14-GUARD/ORDER/FIRST/VERBATIM when the parser's table is not decided)", 10},
 	"MAT": {"MAT", "C02", runC02Mat, nil,
 		"the clauses accumulated by a call are returned unchanged: groups evaluated before the emptiness test, nil iff empty, exactly one trailing separator removed (rule C02-MAT)", 8},
 	"LRU": {"LRU", "C09", runC09, nil,
